@@ -10,11 +10,11 @@ from .core import AnalysisError, Finding, Run, norm_text
 EVP = 'solvers.evp'
 
 
-def run_als(repo, d, solver, nev, rep, gevp, nprev, dtype='complex'):
+def run_als(repo, d, solver, nev, rep, gevp, nprev, dtype='complex', dtype_gevp=None):
     def body(sc):
         Aop = sc.tt('A', d, 'op', dtype=dtype)
         x = sc.tt('x', d, 'vec', dtype=dtype)
-        B = sc.tt('B', d, 'op', dtype=dtype) if gevp else None
+        B = sc.tt('B', d, 'op', dtype=dtype_gevp or dtype) if gevp else None
         prev = [sc.tt(f'p{j}', d, 'vec', dtype=dtype) for j in range(nprev)]
         sc.inputs = {'A': Aop, 'x': x}
         sc.old_ranks = list(x._attrs['ranks'])
@@ -40,6 +40,9 @@ def check(repo, tier):
     run.rule('D4', 'paired reorder: eigenvalues and eigenvectors of each micro solve are re-indexed by the same selector; the returned eigentensor satisfies the '
              'class invariant, chains, and cores 1..d-1 are right-orthonormal factors')
     run.rule('D5', 'power_method: the Rayleigh quotient <x|A|x> / <x|B|x> is well-typed at TT level (conjugated bra), the inner solve gets the shifted operator')
+    run.rule('D5b', 'power_method over the TT-level algebra (operators A, B uninterpreted, inner linear solve = exact solution): the returned eigentensor is the '
+             'normalised inverse iterate  x_k = y/||y||,  (A - sigma B) y = B x_(k-1)   (B = I for the standard problem), and the returned eigenvalue is the '
+             '(generalised) Rayleigh quotient <x|A|x> / <x|B|x> of the RETURNED eigentensor')
     run.rule('D6', 'frame: operator, right-hand operator, guess and deflation tensors are not modified (Layer 1)')
     run.trusted = ['leg semantics of the NumPy/SciPy transfer functions', 'the contraction rule']
     orders = (1, 2, 3, 4) if tier == 'thorough' else (2, 3)
@@ -54,12 +57,27 @@ def check(repo, tier):
                     for gevp, nprev in ((False, 0), (True, 2)) if (tier == 'thorough' or solver != 'eigs') else ((True, 2),):
                         grid.append((d, solver, nev, rep, gevp, nprev))
     run.bounds = f'orders {orders}; solver in (eig, eigh, eigs); number_ev in (1, 2); repeats in (1, 2); standard and generalised problems, 0 and 2 deflation tensors; complex data'
-    for d, solver, nev, rep, gevp, nprev in grid:
-        scen = f'als(order={d}, solver={solver}, number_ev={nev}, repeats={rep}, {"generalised" if gevp else "standard"}, {nprev} deflation tensors)'
+    # (real operator and guess with a complex Hermitian right-hand operator: the micro pencil is complex although the projected left-hand operator is real)
+    grid += [(2, solver, 1, 1, True, 0, 'real', 'complex') for solver in ('eig', 'eigh', 'eigs')] + [(2, 'eig', 1, 1, False, 0, 'real', None)]
+    for d, solver, nev, rep, gevp, nprev, *dts in grid:
+        scen = f'als(order={d}, solver={solver}, number_ev={nev}, repeats={rep}, {"generalised" if gevp else "standard"}, {nprev} deflation tensors' + (f', {dts[0]} operator and guess' + (f', {dts[1]} right-hand operator' if dts[1] else '') if dts else '') + ')'
         entry = f'{EVP}.als'
-        for ch, sc, res, exc in run_als(repo, d, solver, nev, rep, gevp, nprev):
+        for ch, sc, res, exc in run_als(repo, d, solver, nev, rep, gevp, nprev, *dts):
             pscen = scen + (f' [branch outcomes {ch}]' if ch else '')
             n_contr += l2rules.typing_obligations(run, 'C08', 'D1', repo, sc, scen, mods)
+            # D4b: the cores are built from the eigenvectors of the micro pencil, not from their real parts, when a member of the pencil is complex
+            eigs_by_uid = {e['uid']: e for e in sc.events('eig')}
+            for e in sc.events('real-part'):
+                pv = e['array'].tags.get('prov')
+                if not (isinstance(pv, dict) and pv.get('role') == 'v' and pv.get('eig') in eigs_by_uid):
+                    continue
+                ee = eigs_by_uid[pv['eig']]
+                cplx = [nm for nm, m_ in (('operator', ee['matrix']), ('right-hand operator', ee.get('b'))) if isinstance(m_, Arr) and m_.dt == 'complex']
+                where, cons, f_, ln = l2rules.ev_where(repo, e, mods)
+                run.oblige('D4', (where, cons, scen, 'real-part'), not cplx)
+                if cplx:
+                    run.add(Finding('C08', 'D4', where, cons, f'{scen}: the eigenvectors of a micro pencil whose {" and ".join(cplx)} is complex are replaced by their real parts '
+                                    f'(the stored core is then not an eigenvector of the pencil and the returned eigenvalue not the Rayleigh quotient of the returned tensor)', f_, ln, {'scenario': scen}))
             if exc is not None:
                 run.oblige('D2', (entry, scen, 'raises'), False)
                 l2rules.raised_finding(run, 'C08', 'D2', repo, entry, scen, exc)
@@ -156,6 +174,7 @@ def check(repo, tier):
                 fn = repo.fn(entry)
                 run.add(Finding('C08', 'D5', fn.where, 'returned eigenvalue', f'{scen}: the returned eigenvalue is not a scalar ({ev!r})', fn.file, fn.node.lineno))
             l2rules.invariant_obligation(run, 'C08', 'D5', repo, sc, et, entry, scen, 'returned eigentensor')
+    power_method_algebra(run, repo, tier)
     l2rules.frame_obligations(run, 'C08', 'D6', repo, [f'{EVP}.als', f'{EVP}.power_method'])
     run.analysed = {'module': EVP, 'contractions_typed': n_contr, 'scenarios': len(grid) + 2}
     run.floor('typed contractions in solvers/evp.py', n_contr, 300)
@@ -199,3 +218,84 @@ def improvement_tests(sc, entry):
         g2['direction_ok'] = (ex[0] in ('lt', 'le')) == new_left
         out.append(g2)
     return out
+
+
+def run_power_method(repo, qual, gevp, reps):
+    """interpret a power-method implementation over ttalg2; returns (eigenvalue, eigentensor, registry, textbook iterate, Rayleigh quotient of the returned tensor)"""
+    import sympy as sp
+    from . import ttalg2 as T
+    from . import alg
+    from .interp import Interp, Frame, Fork, Raised
+    fn = repo.fn(qual)
+    reg = T.Reg()
+
+    def i_eye(it, dims):
+        return T.Op2.eye(reg)
+
+    def i_als(it, operator, initial_guess, right_hand_side, **kw):
+        if not isinstance(operator, T.Op2) or not isinstance(right_hand_side, T.Vec2) or not isinstance(initial_guess, T.Vec2):
+            raise Raised('TypeError', 'sle.als called with wrong argument kinds')
+        return T.solve(operator, right_hand_side, reg)
+    libs = {'numpy': alg.FakeNp, 'math': math, 'time': alg.FakeTime, 'typing': object(), 'scipy': object(), 'scipy.linalg': object(), 'scipy.sparse.linalg': object()}
+    it = Interp(repo, libs=libs, intercept={'tensor_train.eye': i_eye, 'solvers.sle.als': i_als, 'solvers.sle.mals': i_als, 'solvers.ctl.inner_solve': i_als, 'utils.progress': lambda it, *a, **k: 0.0})
+    it.stack.append(Frame(fn, repo.modules[fn.mod], {}))
+    Aop, Bop, x0 = T.Op2.atom('A', reg), T.Op2.atom('B', reg), T.Vec2.atom('x0', reg)
+    sigma = sp.Symbol('sigma', real=True)
+    try:
+        res = it.call_fn(fn, [Aop, x0], {'operator_gevp': Bop if gevp else None, 'repeats': reps, 'sigma': sigma})
+    except Fork:
+        raise AnalysisError(f'{qual}: a test could not be decided: {it.fork_log[-1]}')
+    except Raised as r:
+        if r.exc_type == 'NotInThisAlgebra':
+            raise AnalysisError(f'{qual}: {r.message} is not expressible in the TT-level algebra')
+        raise
+    if not (isinstance(res, tuple) and len(res) == 2 and isinstance(res[1], T.Vec2)):
+        raise AnalysisError(f'{qual}: the result is not (eigenvalue, eigentensor) in the TT-level algebra: {res!r}')
+    ev, x = res
+    # the textbook iteration, built with the same constructors
+    Beff = Bop if gevp else T.Op2.eye(reg)
+    shift = Aop - sigma * Beff
+    w = x0
+    for _ in range(reps):
+        y = T.solve(shift, Beff.dot(w), reg)
+        w = y * (1 / y.norm())
+    xh = x.transpose(conjugate=True)
+    want = xh.dot(Aop).dot(x) / xh.dot(Beff).dot(x)
+    try:
+        ray = sp.simplify(sp.sympify(ev) - want) == 0
+    except (TypeError, sp.SympifyError):
+        raise AnalysisError(f'{qual}: the returned eigenvalue {ev!r} is not a scalar of the TT-level algebra')
+    return ev, x, reg, w, want, ray
+
+
+def power_method_algebra(run, repo, tier):
+    """D5b: solvers.evp.power_method interpreted over ttalg2 (several operator symbols, inner products as uninterpreted sesquilinear forms)"""
+    import os
+    import sympy as sp
+    from . import ttalg2 as T
+    from .interp import Raised
+    from .core import Repo, VERIF
+    entry = f'{EVP}.power_method'
+    fn = repo.fn(entry)
+    for gevp, reps in itertools.product((False, True), (1, 2, 3) if tier == 'thorough' else (1, 2)):
+        scen = f'power_method over the TT algebra ({"generalised" if gevp else "standard"}, repeats={reps})'
+        try:
+            ev, x, reg, w, want, ray = run_power_method(repo, entry, gevp, reps)
+        except Raised as r:
+            run.oblige('D5b', (entry, scen, 'raises'), False)
+            l2rules.raised_finding(run, 'C08', 'D5b', repo, entry, scen, r)
+            continue
+        ok = x.same(w)
+        run.oblige('D5b', (entry, scen, 'iterate'), ok)
+        if not ok:
+            run.add(Finding('C08', 'D5b', fn.where, 'inverse iteration', f'{scen}: the returned eigentensor is  {T.describe(str(x)[:300], reg)}  but the normalised inverse iterate is  '
+                            f'{T.describe(str(w)[:300], reg)}', fn.file, fn.node.lineno))
+        run.oblige('D5b', (entry, scen, 'rayleigh'), ray)
+        if not ray:
+            run.add(Finding('C08', 'D5b', fn.where, 'Rayleigh quotient', f'{scen}: the returned eigenvalue is  {T.describe(sp.simplify(ev), reg)[:400]}  but the (generalised) Rayleigh quotient of the '
+                            f'returned eigentensor is  {T.describe(sp.simplify(want), reg)[:400]}', fn.file, fn.node.lineno))
+    crepo = Repo(os.path.join(VERIF, 'controls', 'l2'))
+    r_bad = run_power_method(crepo, 'solvers.ctl.power_stale_denominator', True, 2)
+    r_good = run_power_method(crepo, 'solvers.ctl.power_good', True, 2)
+    run.control('D5b: Rayleigh quotient with the denominator of the previous iterate (controls/l2 power_stale_denominator)', r_bad[5] is False and r_bad[1].same(r_bad[3]))
+    run.control('negative control: textbook inverse iteration written differently is accepted (controls/l2 power_good)', r_good[5] is True and r_good[1].same(r_good[3]))
